@@ -235,7 +235,13 @@ def coq_build(clean=False, timeout=1500):
             sh("coq_makefile -f _CoqProject -o Makefile", cwd=COQ)
         rc, log = sh("timeout %d make -k -j%d 2>&1 | tail -n 200" % (timeout, NPROC), cwd=COQ, timeout=timeout + 30)
         failed = []
+        # targets that are still out of date after the build (compile errors, or a dependency that failed)
+        _, dry = sh("make -k -n 2>/dev/null", cwd=COQ, timeout=120)
+        stale = set(re.findall(r"theories/[A-Za-z0-9_/]+\.v", dry))
+        failed += sorted(f for f in project_files() if f in stale)
         for f in project_files():
+            if f in failed:
+                continue
             v = os.path.join(COQ, f)
             vo = v + "o"
             if not os.path.exists(v):
